@@ -268,6 +268,16 @@ VARIANTS = [
     {"name": "X lazy-proxy guard any() narrowed to all() (value level)", "file": "hippolyzer/lib/base/objects.py", "expect": "miss",
      "old": "if any(isinstance(x, lazy_object_proxy.Proxy) for x in (old_val, val)):",
      "new": "if all(isinstance(x, lazy_object_proxy.Proxy) for x in (old_val, val)):"},
+    # ---- round 6
+    {"name": "R2 full-id store after the avatar bookkeeping", "file": OM, "expect": "C14.R2",
+     "old": "        region.track_object(obj)\n        self._fullid_lookup[obj.FullID] = obj\n        if obj.PCode == PCode.AVATAR:\n"
+            "            self._avatar_objects[obj.FullID] = obj\n            self._rebuild_avatar_objects()\n",
+     "new": "        region.track_object(obj)\n        if obj.PCode == PCode.AVATAR:\n"
+            "            self._avatar_objects[obj.FullID] = obj\n            self._rebuild_avatar_objects()\n"
+            "        self._fullid_lookup[obj.FullID] = obj\n"},
+    {"name": "P R2 only logging between the two index updates", "file": OM, "expect": "silent",
+     "old": "        region.track_object(obj)\n        self._fullid_lookup[obj.FullID] = obj\n",
+     "new": "        region.track_object(obj)\n        LOG.debug(\"Tracking %r\", obj)\n        self._fullid_lookup[obj.FullID] = obj\n"},
     # ---- documented limits
     {"name": "X missing_locals bookkeeping dropped (not observed by the statement)", "file": OM, "expect": "miss",
      "old": "        self.missing_locals -= {obj.LocalID}\n", "new": ""},
